@@ -40,7 +40,8 @@ Additions for stateful callees (retrospective wrappers / smoothers; all fail clo
   `while True:` with `break` / `continue` (only with cfg["while_fuel"] = name of a `nat` parameter): PyRt.res_while, recursion on
                that explicit fuel over the tuple of carried variables; the body answers (go on?, state): `break` = false, end of
                body / `continue` = true.  Running out of fuel is NOT a Python behaviour (Err 98): linking theorems are stated
-               for sufficient fuel.  Any other loop test, while/else, `return` inside, `break` in a `for` are refused.
+               for sufficient fuel.  Any other loop test, while/else, `return` inside are refused.
+  `break` in a `for` loop (default monad only): PyRt.res_fold_brk, the body answers (go on?, state) like a while body.
   [x for x in L if c(x)] whose single condition may raise: PyRt.res_filter (conditions evaluated left to right, the first
                exception ends the comprehension); only for the default `result` monad.
 """
@@ -726,7 +727,13 @@ class Tr:
                 env_body[n] = t
                 pre += "%s    let %s := %s in\n" % (ind, n, tv)
 
+        brk = self.has_jump(st.body, (ast.Break,))     # a `break` of THIS loop: the body answers (go on?, state)
+        if brk and self.M["type"] != "result":
+            raise Unsupported("break in a for loop under a non-default monad")
+
         def kbody(env2, jump=None):
+            if brk and (jump is None or jump in ("continue", "break")):
+                return "%s    Ok (%s, %s)\n" % (ind, "false" if jump == "break" else "true", tuple_term(carried))
             if jump is not None and jump != "continue":
                 raise Unsupported("jump out of a loop body")
             return "%s    %s %s\n" % (ind, self.M["ok"], tuple_term(carried))
@@ -737,7 +744,7 @@ class Tr:
         if len(carried) == 1:
             spat = "(%s : %s)" % (carried[0], coq_type(env[carried[0]]))
         txt = "%s%s %s <- %s (fun %s %s =>\n%s%s%s  ) %s %s;\n" % (
-            ind, self.M["bind"], self.bind_pat(carried), self.M["fold"], spat, xpat, pre, body, ind, xs, tuple_term(carried))
+            ind, self.M["bind"], self.bind_pat(carried), "res_fold_brk" if brk else self.M["fold"], spat, xpat, pre, body, ind, xs, tuple_term(carried))
         env_after = dict(env)
         for v in dropped:
             txt += "%slet %s := tt in\n" % (ind, v)   # poison: a later read is a type error
